@@ -1,0 +1,25 @@
+//go:build verif
+
+// Machine-checked contracts for package peerhandoutpolicy (comment-only; read by /verif/govc).
+// Property C26: an announce response never lists the announcing peer.
+
+package peerhandoutpolicy
+
+//@ specfunc ppok(x *peerPriorityInfo, source *core.PeerInfo) bool = x != nil && allocated(x) && x.peer != nil && allocated(x.peer) && x.peer.PeerID != source.PeerID
+
+// SortPeers returns peers of the input other than the source (compared by PeerID, the identity
+// the tracker uses), at most as many as it was given. The order produced by sort.Slice is not
+// under contract (the less closure is not interpreted).
+//@ func PriorityPolicy.SortPeers
+//@   requires p != nil && source != nil && allocated(source)
+//@   requires forall j int :: 0 <= j && j < len(peers) ==> peers[j] != nil && allocated(peers[j])
+//@   modifies allmem *core.PeerInfo, allmem *peerPriorityInfo
+//@   ensures excluded: forall k int :: 0 <= k && k < len(result) ==> result[k] != nil && result[k].PeerID != source.PeerID
+//@   ensures size: len(result) <= len(peers)
+//@   loop 0 invariant idx: 0 - 1 <= rangeindex && rangeindex < len(peers) && len(peerPriorities) <= rangeindex + 1 && 0 <= len(peerPriorities)
+//@   loop 0 invariant input: forall j int :: 0 <= j && j < len(peers) ==> peers[j] != nil && allocated(peers[j])
+//@   loop 0 invariant pp_ok: forall k int :: 0 <= k && k < len(peerPriorities) ==> ppok(peerPriorities[k], source)
+//@   loop 0 invariant src: source.PeerID == old(source.PeerID)
+//@   loop 1 invariant idx: 0 - 1 <= rangeindex && rangeindex < len(peerPriorities) && len(sortedPeers) == rangeindex + 1 && len(peerPriorities) <= len(peers)
+//@   loop 1 invariant pp_ok: forall k int :: 0 <= k && k < len(peerPriorities) ==> ppok(peerPriorities[k], source)
+//@   loop 1 invariant out_ok: forall k int :: 0 <= k && k < len(sortedPeers) ==> sortedPeers[k] != nil && sortedPeers[k].PeerID != source.PeerID
